@@ -1517,6 +1517,24 @@ func rulePairAtomic(p *Prog, r *Report) {
 				}
 				for _, op := range ret.Results {
 					if isErrorType(op.Type()) && !isNilConst(op) {
+						// the same error value was tested nil on the way to the write ("if err == nil { write }; return err")
+						knownNil := false
+						for _, g := range expandAndGuards(dominatingGuards(w.in.Block())) {
+							g = normGuard(g)
+							bo, ok := g.Cond.(*ssa.BinOp)
+							if !ok || (bo.Op != token.EQL && bo.Op != token.NEQ) {
+								continue
+							}
+							if !((bo.X == op && isNilConst(bo.Y)) || (bo.Y == op && isNilConst(bo.X))) {
+								continue
+							}
+							if (bo.Op == token.EQL) == g.Pol {
+								knownNil = true
+							}
+						}
+						if knownNil {
+							continue
+						}
 						okAtomic = false
 						r.Bad(rule, sp.fn, "no failure after a write", p.Pos(ret.Pos()), "an error can be returned after the Map was already modified (in "+p.Name(w.fn)+")")
 					}
